@@ -4,6 +4,7 @@ package harness
 // payload is exact; failure is permanent; only <success/> authenticates.
 
 import (
+	"os"
 	"encoding/base64"
 	"errors"
 	"fmt"
@@ -32,6 +33,8 @@ type c14Case struct {
 	// AuthWrite: fault injected at the write of the <auth/> element (single connection only): "zero" = the transport
 	// reports 0 bytes written and no error, "error" = 0 bytes and an error, "partial" = half of the bytes, then an error
 	AuthWrite string `json:"auth_write,omitempty"`
+	// Logger: the traffic logger is on (the bytes of <auth/> pass through it on their way to the socket)
+	Logger bool `json:"logger,omitempty"`
 }
 
 func genC14(t *rapid.T) c14Case {
@@ -102,6 +105,7 @@ func genC14(t *rapid.T) c14Case {
 	if c.Prior == nil && rapid.IntRange(0, 7).Draw(t, "authWriteFault") == 0 {
 		c.AuthWrite = rapid.SampledFrom([]string{"zero", "error", "partial"}).Draw(t, "authWrite")
 	}
+	c.Logger = rapid.IntRange(0, 2).Draw(t, "logger") == 0
 	c.Reply = rapid.SampledFrom([]string{"success", "success", "failure", "other"}).Draw(t, "reply")
 	c.Var = rapid.IntRange(0, 7).Draw(t, "var")
 	if c.Reply == "failure" {
@@ -151,6 +155,14 @@ func runC14(c c14Case) vh.Result {
 	if err != nil {
 		res.Fail("harness-newclient", "NewClient(%q): %v", c.Local, err)
 		return res
+	}
+	if c.Logger {
+		res.Label("traffic-logger")
+		if f, err := os.CreateTemp("", "verif-c14-*.log"); err == nil {
+			defer os.Remove(f.Name())
+			defer f.Close()
+			xmpp.VerifGetTransport(cl).LogTraffic(f)
+		}
 	}
 	if c.AuthWrite != "" && c.Prior == nil {
 		wrap := &stubTransport{inner: xmpp.VerifGetTransport(cl)}
@@ -298,7 +310,7 @@ func isAlnum(s string) bool {
 
 var c14 = vh.Define(&vh.Def[c14Case]{
 	Property: "C14", Name: "sasl",
-	Rule: "local parts over everything NewJid accepts (ASCII, odd punctuation incl. & and NUL, non-ASCII, astral), secrets as arbitrary byte strings (alphanumeric, random bytes incl. invalid UTF-8, NUL-adjacent, XML metacharacters, all XML-legal text), password or token credential, server mechanism lists of 0-6 names drawn with repetition from known, unknown, wrong-case and empty names (with the matching mechanism inserted at a generated position in half of the cases; in a quarter of the cases the features also carry a <mechanisms/> look-alike from a foreign namespace that lists both mechanisms and offers nothing), server reply success / failure (13 forms: every RFC 6120 condition, with and without text, none, an undefined one) / another element (8 forms); in a third of the cases the list differs before and after STARTTLS, or the same Client made an earlier successful connection against another list and reconnects; in an eighth of the single-connection cases the write of the <auth/> element is faulted in a wrapped Transport (0 bytes and no error, an error, or half of the bytes and an error) and Connect must then fail; a real Client connects to the scripted peer over TCP; oracle on the peer transcript: mechanism == the one the credential supports and it was advertised, base64-decoded payload == NUL local NUL secret byte for byte; no common mechanism => nothing after the stream header and a permanent ConnError; <failure/> => permanent error; anything but <success/> => Connect fails; non-trivial = secret or local part not purely alphanumeric, or the mechanism list is not exactly [PLAIN]",
+	Rule: "local parts over everything NewJid accepts (ASCII, odd punctuation incl. & and NUL, non-ASCII, astral), secrets as arbitrary byte strings (alphanumeric, random bytes incl. invalid UTF-8, NUL-adjacent, XML metacharacters, all XML-legal text), password or token credential, server mechanism lists of 0-6 names drawn with repetition from known, unknown, wrong-case and empty names (with the matching mechanism inserted at a generated position in half of the cases; in a quarter of the cases the features also carry a <mechanisms/> look-alike from a foreign namespace that lists both mechanisms and offers nothing), server reply success / failure (13 forms: every RFC 6120 condition, with and without text, none, an undefined one) / another element (8 forms); in a third of the cases the list differs before and after STARTTLS, or the same Client made an earlier successful connection against another list and reconnects; in an eighth of the single-connection cases the write of the <auth/> element is faulted in a wrapped Transport (0 bytes and no error, an error, or half of the bytes and an error) and Connect must then fail; a real Client, in a third of the cases with the traffic logger on, connects to the scripted peer over TCP; oracle on the peer transcript: mechanism == the one the credential supports and it was advertised, base64-decoded payload == NUL local NUL secret byte for byte; no common mechanism => nothing after the stream header and a permanent ConnError; <failure/> => permanent error; anything but <success/> => Connect fails; non-trivial = secret or local part not purely alphanumeric, or the mechanism list is not exactly [PLAIN]",
 	Quick: 3000, Thorough: 24000, Journal: true,
 	Gen: genC14, Run: runC14,
 })
